@@ -55,6 +55,7 @@ func thoroughExtras(c *Ctx, pr *propResult, findings []Finding) {
 			rows = append(rows, row)
 			continue
 		}
+		c2.link(c.requested)
 		same := render(c2.FileSet) == base
 		row["same_file_set_as_default"] = same
 		nfiles := 0
